@@ -1,7 +1,100 @@
 import A2Verif.Model.Hex
-/-! driver family `c15` (stub until the family is built) -/
-namespace A2Verif.Drv.C15
+import A2Verif.Model.Dasm
+import A2Verif.Model.Asm
+/-!
+driver family `c15`: answers for the harness family `c15`.
 
-def handle (_toks : List String) : String := "bad-request"
+  c15 dasm  <proc> <mx> <brk> <org-hex> <bytes-hex>   rendered line list of the model, `;` separated
+  c15 spans <proc> <mx> <brk> <org-hex> <bytes-hex>   start address of every emitted unit (hex, `,` separated)
+  c15 rt    <proc> <mx> <brk> <org-hex> <bytes-hex>   per unit: bytes the assembler model emits for it (hex) or `E`
+
+`proc` ∈ 6502 65c02 65802 65816, `mx` two binary digits, `brk` 0/1.  The rendering below is the text layer
+of `format_lines` reduced to `MNEMONIC+suffix OPERAND` (single blank), which is how the harness
+canonicalises the real output.
+-/
+namespace A2Verif.Drv.C15
+open A2Verif.Gen.Opcodes A2Verif.Dasm A2Verif.Asm
+
+def parseProc : String → Option Proc
+  | "6502" => some .p6502
+  | "65c02" => some .p65c02
+  | "65802" => some .p65802
+  | "65816" => some .p65816
+  | _ => none
+
+def parseBit : Char → Option Bool
+  | '0' => some false
+  | '1' => some true
+  | _ => none
+
+def parseHexNat (s : String) : Option Nat :=
+  s.toList.foldl (fun acc c => match acc, A2Verif.Hex.hexVal c with
+    | some a, some d => some (16 * a + d)
+    | _, _ => none) (if s.isEmpty then none else some 0)
+
+def hexN (v n : Nat) : String :=
+  String.join ((List.range n).reverse.map (fun i => A2Verif.Hex.byteToHex ((v / 256 ^ i) % 256)))
+
+def upper (c : Nat) : Char := Char.ofNat (if 97 ≤ c ∧ c ≤ 122 then c - 32 else c)
+
+/-- `snip.replace(digit, hex)` on the upper-cased snippet -/
+def fillSnippet (snip : List Nat) (digit : Nat) (hex : String) : String :=
+  String.join (snip.map (fun c => if c == 48 + digit then hex else String.singleton (upper c)))
+
+def strOf (cs : List Nat) : String := String.ofList (cs.map Char.ofNat)
+
+def renderLine : Line → List String
+  | .instr _ m md wide sfx pfx op =>
+    let name := strOf (mnemName m) ++ (match sfx with | .none => "" | .colon => ":" | .long => "L")
+    match op with
+    | .none => [name]
+    | .mov a b => [name ++ " $" ++ hexN a 1 ++ ",$" ++ hexN b 1]
+    | .rel d =>
+      let n := if md == .rell then 2 else 1
+      [name ++ " " ++ fillSnippet (snippet md) n ("$" ++ hexN d 2)]
+    | .val v n =>
+      let snip := if wide then [35, 50] else snippet md
+      [name ++ " " ++ (if pfx then ">" else "") ++ fillSnippet snip n ("$" ++ hexN v n)]
+  | .hex _ reps bytes =>
+    let h := "HEX " ++ String.join (bytes.map A2Verif.Hex.byteToHex)
+    if reps > 1 then ["LUP " ++ toString reps, h, "--^"] else [h]
+  | .ds _ n v => ["DS " ++ toString n ++ ",$" ++ hexN v 1]
+  | .asc _ neg s zero =>
+    let d0 : Nat := if neg then 34 else 39
+    let d : Nat := if s.head? == some d0 then (if neg then 38 else 47) else d0
+    ["ASC " ++ strOf ([d] ++ s ++ [d]) ++ (if zero then ",00" else "")]
+  | .dci _ neg s =>
+    let d0 : Nat := if neg then 34 else 39
+    let d : Nat := if s.head? == some d0 then (if neg then 38 else 47) else d0
+    ["DCI " ++ strOf ([d] ++ s ++ [d])]
+  | .dfb _ v => ["DFB $" ++ hexN v 1]
+
+def primaryVer : Proc → Ver
+  | .p65816 => .m16
+  | _ => .m8
+
+def join (sep : String) (xs : List String) : String :=
+  if xs.isEmpty then "-" else sep.intercalate xs
+
+def handle (toks : List String) : String :=
+  match toks with
+  | [op, p, mx, brk, org, hex] =>
+    match parseProc p, mx.toList, brk.toList, parseHexNat org, A2Verif.Hex.ofHex hex with
+    | some proc, [mc, xc], [bc], some o, some bytes =>
+      match parseBit mc, parseBit xc, parseBit bc with
+      | some m8, some x8, some b =>
+        let cfg : Cfg := ⟨proc, m8, x8, b⟩
+        let lines := dasm Quirks.fixed cfg o bytes
+        if op == "dasm" then join ";" (lines.flatMap renderLine)
+        else if op == "spans" then join "," (lines.map (fun l => (String.ofList (Nat.toDigits 16 l.addr)).toUpper))
+        else if op == "rt" then
+          let ac : ACfg := ⟨proc, primaryVer proc, m8, x8⟩
+          join "," (lines.map (fun l => match lineBytes Quirks.fixed ac l.addr l with
+            | .ok b => A2Verif.Hex.toHex b
+            | .error _ => "E"))
+        else "bad-request"
+      | _, _, _ => "bad-request"
+    | _, _, _, _, _ => "bad-request"
+  | _ => "bad-request"
 
 end A2Verif.Drv.C15
